@@ -90,7 +90,7 @@ def quoted(text):
 def check_lookup_history(res, events, expected, label, enclosing=None, arity=None, rng=None):
     """expected: [(text str, vnode id)] in lookup order."""
     parser, traces, exc = collect(events)
-    res.case(tuple((e.debugid, e.data, e.tid) for e in events))
+    res.case(tuple((e.debugid, e.data, e.tid) for e in events) if len(events) < 10000 else (label, len(events)))
     res.count('histories')
     if exc is not None:
         res.violation(f'c08-raises-{core.exc_name(exc[1])}', f'{label}: {exc[1]!r} at event {exc[0]}', case_of(events))
@@ -245,6 +245,46 @@ def identical_lookups(res, ctx, rng, arities):
                 res.count('identical_lookup_windows')
 
 
+EDGE_CHARS = [chr(c) for c in range(0x20, 0x7f) if chr(c) != '"'] + ['\u00e9', '\u65e5']
+
+
+def edge_characters(res, ctx, rng, arities):
+    """Every text length x every printable character as the text's LAST (and first) character(s): a text that fills its
+    last record to the brim has no NUL padding behind it, and a decoder that tidies up "fill" characters (blanks, dots,
+    '>' , slashes, padding the kernel is known to leave) then eats real text.  Lookups (alone and inside an open),
+    global strings and thread names."""
+    one = sorted(n for n, a in arities.items() if a == 1) or ['BSC_open']
+    idx = 0
+    for L in range(1, 185):
+        for ci, c in enumerate(EDGE_CHARS):
+            idx += 1
+            if not ctx.mine(idx) or (not ctx.thorough and (L + ci) % 3 and L % 32 not in (23, 24, 25)):
+                continue
+            k = 1 + (L + ci) % 3
+            tail = (c * k).encode()
+            if len(tail) >= L:
+                continue
+            body = ascii_text(L - len(tail), ci)
+            for text, side in ((body + tail, 'last'), (tail + body, 'first')):
+                vn = 0x9000 + L
+                name = one[(L + ci) % len(one)]
+                check_lookup_history(res, H.materialize(H.on_thread(7, H.gen_syscall(rng, name, H.lookup(vn, text)))),
+                                     [(text.decode(), vn)], f'{name} of a {L}-byte path whose {side} character(s) are {c * k!r}',
+                                     enclosing=name, arity=arities.get(name))
+                res.count('edge_character_texts')
+                if L <= 63:
+                    events = H.materialize(H.on_thread(9, H.thread_name(text) + H.global_string(700 + L, text)))
+                    parser, traces, exc = collect(events)
+                    got_n = [t.name for _, t in traces if type(t).__name__ == 'TraceStringThreadname']
+                    got_s = [t.vstr for _, t in traces if type(t).__name__ == 'TraceStringGlobal']
+                    if exc is not None or got_n != [text.decode()] or got_s != [text.decode()]:
+                        res.violation('c08-name-reassembly' if got_s == [text.decode()] else 'c08-string-reassembly',
+                                      f'{L}-byte text whose {side} character(s) are {c * k!r}: thread name {got_n}, global '
+                                      f'string {got_s}, expected {text.decode()!r}' + (f' ({exc[1]!r})' if exc else ''),
+                                      case_of(events))
+                        return
+
+
 def scale_lookups(res, ctx, rng, arities):
     """Lookups far into a long window: a call whose thread produces n further records between its START and a lookup (or
     between the chunks of one lookup) still shows that lookup.  Rungs step over 2^16 (vlib/histories.py)."""
@@ -258,15 +298,17 @@ def scale_lookups(res, ctx, rng, arities):
             name = rng.choice(two)
             where = rng.choice(('between the lookups', 'between the chunks of the second lookup'))
             if where == 'between the lookups' or len(l2) < 2:
-                nested = l1 + H.window_filler(rng, n - 2 - len(l1)) + l2
+                nested, pos = l1 + l2, 1 + len(l1)
             else:
-                nested = l1 + l2[:1] + H.window_filler(rng, n - 3 - len(l1)) + l2[1:]
+                nested, pos = l1 + l2, 2 + len(l1)
             expected = [(t1.decode(), 0x7001), (t2.decode(), 0x7002)]
         else:
             name, where = rng.choice(one), 'before the lookup'
-            nested = H.window_filler(rng, n - 2) + l1
+            nested, pos = l1, 1
             expected = [(t1.decode(), 0x7001)]
-        events = H.materialize(H.on_thread(7, H.gen_syscall(rng, name, nested)))
+        seq = H.gen_syscall(rng, name, nested)
+        # the record right after the filler is record number n of the window (H.stretched_events inserts before `pos`)
+        events, _ = H.stretched_events(seq, pos, n - 1 - pos + len(seq), rng, tid=7)
         check_lookup_history(res, events, expected, f'{name} with {n} same-thread records {where}', enclosing=name,
                              arity=arities[name])
         res.count('scale_lookup_windows')
@@ -447,6 +489,7 @@ def run(ctx):
     if ctx.shard == 0:
         identical_lookups(res, ctx, rng, arities)
     scale_lookups(res, ctx, rng, arities)
+    edge_characters(res, ctx, rng, arities)
     string_workload(res, ctx, rng)
     reuse_workload(res, ctx, rng)
     if ctx.shard == 0:
@@ -463,6 +506,7 @@ def run(ctx):
     res.require('lookup_histories_through_a_dump', 10)
     res.require('identical_lookup_windows', 8)
     res.require('scale_lookup_windows', 4)
+    res.require('edge_character_texts', 2000)
     res.require('lookups_with_boundary_vnode_id', 10)
     return res
 
